@@ -107,6 +107,7 @@ type world struct {
 	hist   []migRec     // accepted migrations, in order
 	spell  *spelling    // how the next migration spells its target (nil = canonical EIP-55 hex, the CLI's form)
 	junk   int          // ids handed to addresses that are no actor (what HexToAddress makes of a non-hex string)
+	bare   bool         // corpus replay: no random funding at reset (the corpus file's own mint lines fund the accounts)
 	mute   bool         // op lines are no longer emitted (the history left the model's scope: a validator was slashed); monitors still run
 }
 
@@ -748,6 +749,14 @@ func (w *world) observe() string {
 		}
 	}
 	parts = append(parts, show("L", it))
+	// which of the observed addresses exist as accounts (x/auth): a migrated unbonding entry can only be paid to one
+	it = nil
+	for _, a := range w.actors {
+		if app.AccountKeeper.HasAccount(ctx, a.addr) {
+			it = append(it, item{[]int64{int64(a.id)}, fmt.Sprint(a.id)})
+		}
+	}
+	parts = append(parts, show("AC", it))
 	return strings.Join(parts, " ")
 }
 
@@ -1781,8 +1790,11 @@ func (w *world) migrate(fromID int, fromAddr sdk.AccAddress, to *actor, signer i
 			laterA = w.laterScript(w.s.Ctx, fromAddr, to.addr, cfSlash, cfFrac)
 		}
 	}
+	toExisted := w.s.App.AccountKeeper.HasAccount(w.s.Ctx, to.addr)
 	raw := w.exec(msg)
 	res := errKind(raw)
+	// the class the repair 13ce831 is about: does the target exist, does the source send anything, is there an entry to pay out
+	w.out.Count(fmt.Sprintf("migrate-account:target-existed=%v,source-liquid=%v,source-unbonding=%v=%s", toExisted, !pf.bal.IsZero(), len(pf.ubds) > 0, res))
 	w.out.Count("migrate-spelling:" + spellName + "/" + mode + "=" + res)
 	w.out.Count("migrate:" + res)
 	w.out.Count("migrate-sig:" + mode)
@@ -2152,6 +2164,8 @@ func (w *world) reset() {
 		acc := w.s.App.AccountKeeper.GetAccount(ctx, a.addr)
 		if acc != nil && acc.GetPubKey() != nil {
 			w.out.Emit(fmt.Sprintf("key %d", a.id), "ok")
+		} else if acc != nil {
+			w.out.Emit(fmt.Sprintf("acct %d", a.id), "ok")
 		}
 	}
 	w.out.Emit("key 100", "ok")
@@ -2169,6 +2183,9 @@ func (w *world) reset() {
 	}
 	// funding
 	for _, a := range w.actors {
+		if w.bare {
+			break
+		}
 		if a.id >= idFresh && freshTarget() {
 			continue // stays without account until something is sent to it
 		}
@@ -2232,6 +2249,7 @@ func TestC14(t *testing.T) {
 	seed := hx.Seed()
 	out := hx.NewOut()
 	defer out.Close("correspondence of the C14 store-level model with the real app (every op line compared) + property monitors on real state after every migration and block")
+	replayCorpus(t, out) // corpus/C14/*.ops first
 	nSeq := hx.N(70, 400)
 	nOps := 70
 	if hx.Tier() == "thorough" {
